@@ -87,6 +87,17 @@ func c06CheckMarshal(w *mon.W, c pbCase) ([]byte, bool) {
 		w.Fail("ReadHeader/fields", dd)
 		return nil, false
 	}
+	// the Header returned for the PREVIOUS frame of this worker must still say what it said then
+	// (a Header living in a pooled or reused buffer changes under the caller's feet)
+	if prev, ok := w.State["c06hdr"].(*c06Held); ok && prev != nil {
+		if prev.h.GetVersion() != prev.ver || prev.h.GetHeaderSize() != 32 || prev.h.GetBodySize() != prev.body {
+			w.Fail("ReadHeader/earlier-returned-header-changed-by-later-call", mon.D{"earlier_version": fmt.Sprintf("%q", prev.ver), "earlier_body_size": prev.body,
+				"now_version": fmt.Sprintf("%q", prev.h.GetVersion()), "now_header_size": prev.h.GetHeaderSize(), "now_body_size": prev.h.GetBodySize()})
+			w.State["c06hdr"] = (*c06Held)(nil)
+			return nil, false
+		}
+	}
+	w.State["c06hdr"] = &c06Held{h: h, ver: c.expVer(), body: int64(len(body))}
 	if exp := c.frame(); !bytes.Equal(wire, exp) {
 		dd := d()
 		dd["got_header"], dd["expected_header"] = fmt.Sprintf("%x", wire[:32]), fmt.Sprintf("%x", exp[:32])
@@ -308,4 +319,10 @@ func c06BigStreams(w *mon.W, idx int) {
 	w.Sample(func() interface{} {
 		return mon.D{"what": "stream with a frame around 1 MiB followed by 3 more frames", "kind": pbKindNames[kind], "big_body_len": len(frames[1]) - 32, "chunking": chNames[mode]}
 	})
+}
+
+type c06Held struct {
+	h    pbcmpl.Header
+	ver  string
+	body int64
 }
